@@ -735,6 +735,36 @@ pub fn render_event(e: &SemEvent, r: &EvRender, rng: &mut Rng) -> (Vec<u8>, usiz
 
 // ------------------------------------------------------------------------------------------ unknown members
 
+/// Insignificant whitespace at a token gap inside a nested value: nothing three times out of four, else 1-3 bytes out
+/// of the four JSON whitespace bytes.
+fn nws(rng: &mut Rng, out: &mut Vec<u8>) {
+    if rng.chance(1, 4) {
+        for _ in 0..1 + rng.usize_below(3) {
+            out.push(*rng.pick(&[0x20u8, 0x09, 0x0a, 0x0d]));
+        }
+    }
+}
+
+/// One text per (token gap, JSON whitespace byte) of a nested value holding every kind of token: the byte is put at that
+/// gap only.
+pub fn nested_gap_texts() -> Vec<Vec<u8>> {
+    let toks: [&str; 23] = ["[", "1", ",", "{", "\"a\"", ":", "[", "true", ",", "\"x\"", "]", ",", "\"b\"", ":", "{", "}", "}", ",", "[", "]", ",", "null", "]"];
+    let mut v = vec![];
+    for gap in 1..toks.len() {
+        for b in [0x20u8, 0x09, 0x0a, 0x0d] {
+            let mut t = vec![];
+            for (i, tok) in toks.iter().enumerate() {
+                if i == gap {
+                    t.push(b);
+                }
+                t.extend_from_slice(tok.as_bytes());
+            }
+            v.push(t);
+        }
+    }
+    v
+}
+
 /// Random JSON value text, nesting at most `depth`.
 pub fn rand_json_value(rng: &mut Rng, depth: usize, out: &mut Vec<u8>) {
     let pick = if depth == 0 { rng.below(6) } else { rng.below(9) };
@@ -762,25 +792,27 @@ pub fn rand_json_value(rng: &mut Rng, depth: usize, out: &mut Vec<u8>) {
         }
         6 | 7 => {
             out.push(b'[');
+            nws(rng, out);
             let n = rng.usize_below(4);
             for i in 0..n {
                 if i > 0 {
                     out.push(b',');
-                }
-                if rng.chance(1, 4) {
-                    out.push(b' ');
+                    nws(rng, out);
                 }
                 rand_json_value(rng, depth - 1, out);
+                nws(rng, out);
             }
             out.push(b']');
         }
         _ => {
             out.push(b'{');
+            nws(rng, out);
             let n = rng.usize_below(4);
             let mut keys: Vec<String> = vec![];
             for i in 0..n {
                 if i > 0 {
                     out.push(b',');
+                    nws(rng, out);
                 }
                 let mut k = rand_string(rng, 6);
                 while keys.contains(&k) {
@@ -798,11 +830,11 @@ pub fn rand_json_value(rng: &mut Rng, depth: usize, out: &mut Vec<u8>) {
                     }
                 }
                 render_string(&k, Esc::Minimal, rng, out);
-                if rng.chance(1, 4) {
-                    out.push(b' ');
-                }
+                nws(rng, out);
                 out.push(b':');
+                nws(rng, out);
                 rand_json_value(rng, depth - 1, out);
+                nws(rng, out);
             }
             out.push(b'}');
         }
